@@ -10,7 +10,7 @@ use crate::rt::Registry;
 /// Number of (C22 groups, C25 programs, C26 programs) per tier.
 pub fn sizes(tier: &str) -> (usize, usize, usize) {
     match tier {
-        "thorough" => (220, 120, 120),
+        "thorough" => (200, 80, 80),
         "miri" => (2, 2, 2),
         _ => (32, 24, 24),
     }
